@@ -28,7 +28,6 @@ impl<U: View, V: View> Prune for NotEquals<U, V> {
         use crate::variables::Val;
         // Bounds reasoning on integer operands: once one side is fixed its value is cut off the
         // other side's bounds, and two sides fixed to the same value violate the constraint.
-        // (Float operands are left to the tolerance-aware float propagators.)
         let (x_min, x_max) = (self.x.min(ctx), self.x.max(ctx));
         let (y_min, y_max) = (self.y.min(ctx), self.y.max(ctx));
         if let (Val::ValI(x_lo), Val::ValI(x_hi), Val::ValI(y_lo), Val::ValI(y_hi)) = (x_min, x_max, y_min, y_max) {
@@ -47,6 +46,14 @@ impl<U: View, V: View> Prune for NotEquals<U, V> {
                 } else if x_hi == y_lo {
                     self.x.try_set_max(Val::ValI(x_hi - 1), ctx)?;
                 }
+            }
+        } else {
+            // A float operand: nothing can be cut off an interval, but once the search has
+            // finished with both sides (`Var::is_assigned`: a float interval at most one step
+            // wide) the values a solution would report, the minima, must differ.
+            let assigned = |v: Option<VarId>, ctx: &Context| v.map_or(true, |v| ctx.vars()[v].is_assigned());
+            if assigned(self.x.get_underlying_var(), ctx) && assigned(self.y.get_underlying_var(), ctx) && x_min == y_min {
+                return None;
             }
         }
         Some(())
